@@ -9,7 +9,7 @@ CRATES = ("typegen",)
 FUNCTIONS = c01.FUNCTIONS + ["AllocCratePath::to_tokens", "TypeGeneratorSettings builders"]
 MODELS = c01.MODELS
 ASSUMPTIONS = ["registries: corpus (every heap-allocated prelude type, documented types and variants, compact fields, bit sequences, unused parameters); array lengths / variant indices symbolic",
-               "root module names and custom paths are not path segments of the registry", "all 2^6 combinations of the six switches are executed on each registry inside one symbolic path"]
+               "in the 2^6 switch families root names and custom paths are not path segments of the registry; the rootname-* families rename the root to every path segment (crate, module and type names) and to core/alloc/std and compare against a placeholder root", "all 2^6 combinations of the six switches are executed on each registry inside one symbolic path"]
 BOUNDS = {"quick": {"switch combinations": 64, "registries": "corpus registries with <= 20 entries + collections"}, "thorough": {"switch combinations": 64, "registries": "all corpus registries"}}
 OUTSIDE = ["derives/substitutes are held fixed (C07, C08)"]
 GLOBAL_WITNESSES = ("Ok",)
@@ -128,8 +128,48 @@ def make_family(name, reg0):
         return res
     return Family(name, mk, run, target_prefixes=1)
 
+def rename_idents(toks, a, b):
+    out = []
+    for t in toks:
+        if t[0] == "g": out.append(("g", t[1], TSL(rename_idents(t[2].t, a, b))))
+        elif t[0] == "i" and t[1] == a: out.append(("i", b))
+        else: out.append(t)
+    return out
+PLACEHOLDER = "zz_root_placeholder"
+def root_family(name, reg0, roots):
+    """renaming the root module changes nothing except that identifier - also when the new name equals a path segment
+    of the registry (crate / module / type name): the output under root R must equal the output under a placeholder
+    root that occurs nowhere else, with the placeholder renamed to R"""
+    def mk(eng): return eng.choose([(r, True) for r in roots]), eng.choose([(b, True) for b in ((0, 0), (1, 1))])
+    def run(eng, ctx):
+        root, (alloc, codec) = ctx
+        res = {"violations": [], "outcome": "Ok"}
+        extra = ([SW["alloc"][1]] if alloc else []) + ([] if codec else ["codec_attrs"]) + [SW["compact"][0], SW["bits"][0]]
+        outs = []
+        for r in (PLACEHOLDER, root):
+            st = Settings(["mod_name " + r] + extra)
+            out, _, _ = generate(eng, regdsl._clone(reg0), st)
+            if out["result"] != "Ok": res["outcome"] = "Err:" + out["err"][0]; return res
+            outs.append((plain_tok_str(rename_idents(out["tokens"], PLACEHOLDER, root)), st))
+        case = replay_gen_case(reg0, outs[1][1]); case2 = replay_gen_case(reg0, outs[0][1])
+        a, b = outs[0][0], outs[1][0]
+        if a != b:
+            k = next((j for j in range(min(len(a), len(b))) if a[j] != b[j]), 0)
+            res["violations"].append({"what": "renaming the root module to %s changes more than the root identifier: ...%s... (placeholder root, renamed) vs ...%s..." % (root, a[max(0, k-70):k+70], b[max(0, k-70):k+70]),
+                                      "case": case, "case2": case2, "kind": "rootname", "root": root})
+        res["validate"] = dict(case, expect={"result": "Ok", "tokens": b})
+        return res
+    return Family(name, mk, run, target_prefixes=1)
+
 def families(eng, tier, seed):
     C = corpus(); fams = []
+    for n in (("enum", "modules", "generics") if tier == "quick" else [k for k in C if len(C[k]) <= 40]):
+        r = C[n]; segs = []
+        for t in r:
+            for sgm in t["path"]:
+                if sgm not in segs: segs.append(sgm)
+        roots = [x for x in segs if x.isidentifier() and x not in ("Option", "Result")][: (6 if tier == "quick" else 12)] + ["types_", "r#type"[:0] + "core", "alloc", "std"]
+        fams.append(root_family("rootname-" + n, r, roots))
     for n, r in C.items():
         if tier == "quick" and len(r) > 20 and n != "generics": continue
         fams.append(make_family("switches-" + n, r))
@@ -142,6 +182,10 @@ def confirm(v, real):
     if real.get("result") != "Ok": return False
     toks = tokenize(real["tokens"])
     if v["kind"] == "clause": return bool(clause_problems(reg, st, toks))
+    if v["kind"] == "rootname":
+        r2 = run_replay([v["case2"]])[0]
+        if r2.get("result") != "Ok": return False
+        return plain_tok_str(rename_idents(tokenize(r2["tokens"]), PLACEHOLDER, v["root"])) != plain_tok_str(toks)
     if v["kind"] == "orthogonal":
         r2 = run_replay([v["case2"]])[0]
         if r2.get("result") != "Ok": return False
@@ -149,7 +193,7 @@ def confirm(v, real):
     return False
 def classify(v):
     w = v["what"]
-    for k in ("`std` occurs", "doc attribute is emitted", "codec attribute is emitted", "docs of", "lacks its codec index", "not rooted at the alloc", "not orthogonal", "generation fails"):
+    for k in ("`std` occurs", "doc attribute is emitted", "codec attribute is emitted", "docs of", "lacks its codec index", "not rooted at the alloc", "not orthogonal", "generation fails", "renaming the root"):
         if k in w: return k
     return "other"
 
